@@ -148,11 +148,11 @@ Definition wf_field (k : fkind) (v : fval) : Prop :=
   | FRtype, VRtype n => n < 65536
   | FTimestamp, VUint n => n <= 4294967295
   | FTypes, VTypes l => Forall (fun n => n < 65536) l
-  | FSalt, VSalt w => forallb plain_char w = true /\ w <> [45]
+  | FSalt, VSalt w => forallb plain_char w = true /\ w <> [45] /\ len w <= 2 * nsec3_salt_max
   | FQuoted, VQuoted b => wf_bytes b
   | FIp4, VIp4 a => wf_ip4 a
   | FDot, VDot => True
-  | FB32, VB32 b => wf_bytes b /\ b <> []
+  | FB32, VB32 b => wf_bytes b /\ b <> [] /\ len b <= nsec3_hash_max
   | _, _ => False
   end.
 
@@ -207,10 +207,10 @@ Proof.
   - destruct W as [_ W]. rewrite !Forall_map. eapply Forall_impl; [|exact W]. intros b Hb. apply S, cstr_quoted_good, Hb.
   - constructor; [|constructor]. apply S, plain_word_good, rtype_plain, W.
   - rewrite !Forall_map. eapply Forall_impl; [|exact W]. intros n Hn. apply S, plain_word_good, rtype_plain, Hn.
-  - constructor; [exact I|]. constructor; [|constructor]. apply S, plain_word_good, salt_text_plain, W.
+  - constructor; [exact I|]. constructor; [|constructor]. apply S, plain_word_good, salt_text_plain, (proj1 W).
   - constructor; [|constructor]. apply S, plain_word_good, show_dec_plain.
   - constructor; [|constructor]. apply S, plain_word_good, show_ip4_plain, W.
-  - constructor; [|constructor]. apply S, plain_word_good. destruct W as [W1 W2].
+  - constructor; [|constructor]. apply S, plain_word_good. destruct W as (W1 & W2 & _).
     destruct (blob32_roundtrip b W1 W2) as (w & D & P & _). unfold b32_text. rewrite D. exact P.
   - constructor; [|constructor]. apply S. reflexivity.
   - constructor; [|constructor]. apply S, cstr_quoted_good, W.
@@ -271,13 +271,16 @@ Proof.
   - rewrite read_rtype_ok by exact Wv. cbn [bind]. rewrite IH by exact Wr. reflexivity.
   - destruct (Last (or_intror (or_intror eq_refl))) as [-> ->]. cbn [flat_map]. rewrite app_nil_r.
     rewrite map_o_rtypes by exact Wv. cbn [bind read_fields]. reflexivity.
-  - destruct Wv as [Wp Wn]. cbn [shape_tok t_syms]. rewrite plain_word_text. cbn [bind].
-    rewrite salt_back by exact Wn. rewrite IH by exact Wr. reflexivity.
+  - destruct Wv as (Wp & Wn & Wlen). cbn [shape_tok t_syms]. rewrite plain_word_text. cbn [bind].
+    assert (L : (2 * nsec3_salt_max <? len (salt_text w)) = false).
+    { destruct w as [|c w]; [reflexivity|]. unfold salt_text. lia. }
+    rewrite L. cbv iota. rewrite salt_back by exact Wn. cbn [bind]. rewrite IH by exact Wr. reflexivity.
   - rewrite read_timestamp_dec by exact Wv. cbn [bind]. rewrite IH by exact Wr. reflexivity.
   - pose proof (show_ip4_plain _ Wv) as P. unfold plain_word in P. apply andb_true_iff in P as [_ P].
     rewrite plain_read_octets by exact P. cbn [bind]. rewrite parse_show_ip4 by exact Wv. cbv iota. cbn [bind]. rewrite IH by exact Wr. reflexivity.
-  - destruct Wv as [W1 W2]. destruct (blob32_roundtrip b W1 W2) as (w & D & P & C).
+  - destruct Wv as (W1 & W2 & W3). destruct (blob32_roundtrip b W1 W2) as (w & D & P & C).
     unfold b32_text. rewrite D. cbv iota. cbn [shape_tok t_syms]. rewrite plain_word_text. cbn [bind]. rewrite C. cbn [bind].
+    destruct (nsec3_hash_max <? len b) eqn:E; [lia|]. cbn [bind].
     rewrite IH by exact Wr. reflexivity.
   - change (read_ascii (shape_tok true (TWord [SChar ch_dot]))) with (Ok [46] : outcome text). cbn [bind].
     rewrite IH by exact Wr. reflexivity.
